@@ -71,6 +71,7 @@ BODY_KINDS = {
     "json-inline": {"application/json": {"schema": INLINE_OBJ}},
     "json-array-ref": {"application/json": {"schema": {"type": "array", "items": R("Item")}}},
     "json-string": {"application/json": {"schema": {"type": "string"}}},
+    "json-array-inline": {"application/json": {"schema": {"type": "array", "items": INLINE_OBJ}}},   # bulk endpoint: array of unnamed objects
     "form": {"application/x-www-form-urlencoded": {"schema": FORM_OBJ}},
     "multipart": {"multipart/form-data": {"schema": FILE_OBJ}},
     "octet": {"application/octet-stream": {"schema": {"type": "string", "format": "binary"}}},
@@ -91,6 +92,8 @@ BODY_ARGS = {
     "json-array-ref": [({"body": ITEM_BODIES}, {"ctype": "application/json", "json": ITEM_BODIES}),
                        ({"body": []}, {"ctype": "application/json", "json": []})],
     "json-string": [({"body": "hello"}, {"ctype": "application/json", "json": "hello"})],
+    "json-array-inline": [({"body": [{"a": "x", "n": 3}, {"a": "y"}]}, {"ctype": "application/json", "json": [{"a": "x", "n": 3}, {"a": "y"}]}),
+                          ({"body": []}, {"ctype": "application/json", "json": []})],
     "form": [({"form_data": {"a": "x y", "b": 2}}, {"ctype": "application/x-www-form-urlencoded", "form": {"a": "x y", "b": "2"}})],
     "multipart": [({"files": {"$files": {"file": B64_FILE}}}, {"ctype": "multipart/form-data", "contains_b64": B64_FILE})],
     "octet": [({"bytes_content": {"$bytes": B64_FILE}}, {"ctype": "application/octet-stream", "raw_b64": B64_FILE})],
